@@ -349,7 +349,7 @@ class Explorer:
     """
 
     def __init__(self, fn, name='', max_paths=20000, max_depth=400, query_timeout_ms=30000,
-                 wall_s=600, stop_on_violation=True, extra_assumptions=None, dyadic=True,
+                 wall_s=600, stop_on_violation=True, extra_assumptions=None, dyadic=True, max_violations=4,
                  expect_exceptions=()):
         self.fn = fn
         self.name = name
@@ -358,6 +358,7 @@ class Explorer:
         self.query_timeout_ms = query_timeout_ms
         self.wall_s = wall_s
         self.stop_on_violation = stop_on_violation
+        self.max_violations = max_violations
         self.dyadic = dyadic
         self.solver = z3.Solver()
         self.solver.set('timeout', query_timeout_ms)
@@ -420,7 +421,7 @@ class Explorer:
                     v.trace = tb
                     self.violations.append(v)
                     self.stats['paths'] += 1
-                    if self.stop_on_violation:
+                    if self._enough_violations():
                         break
                     continue
                 finally:
@@ -428,7 +429,7 @@ class Explorer:
                     Ctx.cur = None
                 self.stats['paths'] += 1
                 self._discharge(ctx)
-                if self.violations and self.stop_on_violation:
+                if self._enough_violations():
                     break
             finally:
                 self.solver.pop()
@@ -436,6 +437,15 @@ class Explorer:
         if self.state_set:
             self.stats['states'] = len(self.state_set)
         return self
+
+    def _enough_violations(self):
+        """stop after a few counterexamples with distinct labels (a non-reproducing one must not hide a real one)"""
+        if not self.violations:
+            return False
+        if not self.stop_on_violation:
+            return False
+        kinds = set(v.label.split(':')[0][:80] for v in self.violations)
+        return len(kinds) >= self.max_violations or len(self.violations) >= 4 * self.max_violations
 
     def _discharge(self, ctx):
         s = self.solver
@@ -492,9 +502,7 @@ class Explorer:
                     wit = info
                 self.violations.append(Violation(label, model_to_dict(m), wit, list(ctx.script), None))
                 s.pop()
-                if self.stop_on_violation:
-                    return
-                continue
+                return          # one counterexample per path is enough
             else:
                 self.stats['unknown'] += 1
                 self.inconclusive.append('obligation %s: unknown (%s)' % (label, s.reason_unknown()))
